@@ -70,6 +70,10 @@ func init() {
 				Old: "entry := fmt.Sprintf(\"v1 %x %x %20d %20d\\n\", id, out, size, time.Now().UnixNano())", New: "entry := fmt.Sprintf(\"v1 %x %x %20d %20d\\n\", id, out, time.Now().UnixNano(), size)"},
 			{Name: "reader-shifted-size-field", File: "lintcmd/cache/cache.go", Rule: "R5.8", KeyPart: "get",
 				Old: "\tesize, entry := entry[1:1+20], entry[1+20:]\n", New: "\tesize, entry := entry[0:1+20], entry[1+20:]\n"},
+			{Name: "short-entry-left-to-content-checks", File: "lintcmd/cache/cache.go", Rule: "R5.9", KeyPart: "entry-not-shorter-than-entrySize",
+				Old: "\t} else if n < entrySize {\n\t\treturn missing(errors.New(\"entry file incomplete\"))\n\t}\n", New: "\t}\n"},
+			{Name: "long-entry-accepted", File: "lintcmd/cache/cache.go", Rule: "R5.9", KeyPart: "entry-not-longer-than-entrySize",
+				Old: "\tif n, err := io.ReadFull(f, entry); n > entrySize {\n\t\treturn missing(errors.New(\"too long\"))\n\t} else if err != io.ErrUnexpectedEOF {", New: "\tif n, err := io.ReadFull(f, entry); err != nil && err != io.ErrUnexpectedEOF {"},
 			{Name: "runner-bypass-getfile", File: "lintcmd/runner/runner.go", Rule: "R5.6", KeyPart: "getCachedFiles",
 				Old: "\t\t*out[i], _, err = cache.GetFile(c, id)\n\t\tif err != nil {\n\t\t\treturn err\n\t\t}\n",
 				New: "\t\tvar e cache.Entry\n\t\te, err = c.Get(id)\n\t\tif err != nil {\n\t\t\treturn err\n\t\t}\n\t\t*out[i] = c.OutputFile(e.OutputID)\n"},
@@ -674,6 +678,14 @@ func runC05(c *Ctx) {
 		}
 		c.Check(FuncKey(putIndex)+"::entry-format-is-fixed-width", fmtCall.Pos(), okFmt && len(verbs) == 4, "the index entry is written with fixed-width verbs only (%q)", format)
 		c.Check(FuncKey(putIndex)+"::entry-length-equals-entrySize", fmtCall.Pos(), pos == entrySize, "the writer's format produces %d bytes, the reader requires exactly entrySize = %d", pos, entrySize)
+		// the buffer the entry is read into: the argument of the read call (however it was obtained)
+		var root ssa.Value
+		for _, ci := range Calls(get, false) {
+			switch CalleeName(ci.Common()) {
+			case "io.ReadFull", "io.ReadAtLeast":
+				root = ci.Common().Args[1]
+			}
+		}
 		// the reader's literal checks: indices compared with constants
 		readerLit := map[int64]byte{}
 		Instrs(get, false, func(in ssa.Instruction) {
@@ -691,7 +703,7 @@ func runC05(c *Ctx) {
 				return
 			}
 			if i, ok := ConstInt(ia.Index); ok && k >= 0 && k < 256 {
-				if _, isBuf := ia.X.(*ssa.Slice); isBuf {
+				if _, isBuf := ia.X.(*ssa.Slice); isBuf || ia.X == root {
 					readerLit[i] = byte(k)
 				}
 			}
@@ -708,6 +720,9 @@ func runC05(c *Ctx) {
 		// the reader's field slices: absolute [lo,hi) of each slice of the buffer that feeds hex.Decode / ParseInt, in order
 		var absolute func(v ssa.Value) (int64, int64, bool)
 		absolute = func(v ssa.Value) (int64, int64, bool) {
+			if root != nil && v == root {
+				return 0, entrySize + 1, true
+			}
 			sl, ok := v.(*ssa.Slice)
 			if !ok {
 				return 0, 0, false
@@ -841,5 +856,123 @@ func runC05(c *Ctx) {
 			}
 			c.Check(FuncKey(putIndex)+"::truncate-only-after-write", ci.Pos(), wrote, "the index file is cut to the entry's length only after the entry was written (an equal rewrite never shortens the file, not even temporarily)")
 		}
+	})
+	// R5.9: strict fixed-width parsing starts with the length. An index entry is
+	// accepted only if exactly entrySize bytes were read: both "too long" and
+	// "too short" must be excluded on every path to a successful return. The
+	// content checks alone (separators, terminating newline) do not reject a
+	// short file when the buffer holds anything but zeros.
+	c.Rule("R5.9", func() {
+		c.Floor("R5.9", 2)
+		get := c.Func("lintcmd/cache", "(*DiskCache).get")
+		entrySize := constIntOf(c, "lintcmd/cache", "entrySize")
+		isN := func(v ssa.Value) bool {
+			switch x := v.(type) {
+			case *ssa.Extract:
+				if call, ok := x.Tuple.(*ssa.Call); ok && x.Index == 0 {
+					switch CalleeName(&call.Call) {
+					case "io.ReadFull", "io.ReadAtLeast", "os.File.Read", "io.Reader.Read":
+						return true
+					}
+				}
+			case *ssa.Call:
+				if IsCallTo(x, "builtin.len") {
+					return Derives(x.Call.Args[0], IsCallResult("io.ReadAll", "os.ReadFile"))
+				}
+			}
+			return false
+		}
+		isSize := func(v ssa.Value) (int64, bool) {
+			k, ok := ConstInt(v)
+			return k, ok
+		}
+		// edges on which n <= entrySize (upper) / n >= entrySize (lower) is known
+		upper, lower := map[Edge]bool{}, map[Edge]bool{}
+		for _, b := range get.Blocks {
+			iff, ok := b.Instrs[len(b.Instrs)-1].(*ssa.If)
+			if !ok {
+				continue
+			}
+			cond, neg := StripNot(iff.Cond)
+			bo, ok := cond.(*ssa.BinOp)
+			if !ok {
+				continue
+			}
+			var k int64
+			op := bo.Op
+			if kk, ok := isSize(bo.Y); ok && isN(bo.X) {
+				k = kk
+			} else if kk, ok := isSize(bo.X); ok && isN(bo.Y) {
+				k = kk
+				op = map[token.Token]token.Token{token.LSS: token.GTR, token.GTR: token.LSS, token.LEQ: token.GEQ, token.GEQ: token.LEQ, token.EQL: token.EQL, token.NEQ: token.NEQ}[op]
+			} else {
+				continue
+			}
+			for succ, truth := range []bool{true, false} {
+				if neg {
+					truth = !truth
+				}
+				// the set of n on this edge: n op k (truth) or its negation
+				holdsUpper, holdsLower := false, false
+				type rel struct {
+					op    token.Token
+					truth bool
+				}
+				switch (rel{op, truth}) {
+				case rel{token.GTR, false}, rel{token.LEQ, true}: // n <= k
+					holdsUpper = k <= entrySize
+				case rel{token.GEQ, false}, rel{token.LSS, true}: // n < k
+					holdsUpper = k <= entrySize+1
+				case rel{token.LSS, false}, rel{token.GEQ, true}: // n >= k
+					holdsLower = k >= entrySize
+				case rel{token.LEQ, false}, rel{token.GTR, true}: // n > k
+					holdsLower = k >= entrySize-1
+				case rel{token.EQL, true}, rel{token.NEQ, false}: // n == k
+					holdsUpper, holdsLower = k == entrySize, k == entrySize
+				}
+				if holdsUpper {
+					upper[Edge{Block: b.Index, Succ: succ}] = true
+				}
+				if holdsLower {
+					lower[Edge{Block: b.Index, Succ: succ}] = true
+				}
+			}
+		}
+		// "the read stopped before the buffer (entrySize+1 bytes) was full" also bounds n from above:
+		// the read call's error is known to be non-nil (ErrUnexpectedEOF)
+		isReadErr := func(v ssa.Value) bool {
+			return DerivesLocal(v, func(x ssa.Value) bool {
+				e, ok := x.(*ssa.Extract)
+				if !ok || e.Index != 1 {
+					return false
+				}
+				call, ok := e.Tuple.(*ssa.Call)
+				return ok && (CalleeName(&call.Call) == "io.ReadFull" || CalleeName(&call.Call) == "io.ReadAtLeast")
+			})
+		}
+		for e := range ComplementEdges(ErrNilEdges(get, isReadErr)) {
+			upper[e] = true
+		}
+		for e := range EqEdges(get, func(x, y ssa.Value) bool {
+			return isReadErr(x) && Derives(y, func(v ssa.Value) bool { g, ok := v.(*ssa.Global); return ok && g.Name() == "ErrUnexpectedEOF" })
+		}) {
+			upper[e] = true
+		}
+		rets := SuccessReturns(get, 1)
+		if len(rets) == 0 {
+			c.Undecided("(*DiskCache).get has no successful return")
+		}
+		okU, okL := len(upper) > 0, len(lower) > 0
+		pu, pl := "", ""
+		for _, r := range rets {
+			if ok, p := MustPassEdges(get, r, upper); !ok {
+				okU, pu = false, PathString(get, p)
+			}
+			if ok, p := MustPassEdges(get, r, lower); !ok {
+				okL, pl = false, PathString(get, p)
+			}
+		}
+		c.Check(FuncKey(get)+"::entry-not-longer-than-entrySize", get.Pos(), okU, "an index entry is accepted only if no more than entrySize bytes were read; path to a hit without that test: %s", pu)
+		c.Check(FuncKey(get)+"::entry-not-shorter-than-entrySize", get.Pos(), okL, "an index entry is accepted only if all entrySize bytes were read: a truncated file must be a miss whatever the read buffer held before; path to a hit without that test: %s", pl)
 	})
 }
